@@ -8,7 +8,7 @@ from checklib.props import PROPS, NOT_APPLICABLE, HOOK_COMMITS
 all_ids = [json.loads(l)["id"] for l in open(os.path.join(VERIF, "properties.jsonl"))]
 checks = []
 for pid in all_ids:
-    if pid not in PROPS:
+    if pid not in PROPS or PROPS[pid].get("unclaimed"):
         continue
     s = PROPS[pid]
     checks.append({
@@ -22,9 +22,9 @@ for pid in all_ids:
         "level_note": s["level_note"],
         "technique": s.get("technique", "Lean 4 theorems about a hand-written executable model + differential correspondence check against the real code"),
     })
-na = [{"property_id": p, "reason": NOT_APPLICABLE[p]} for p in all_ids if p not in PROPS]
+na = [{"property_id": p, "reason": NOT_APPLICABLE[p]} for p in all_ids if p in NOT_APPLICABLE]
 for p in all_ids:
-    assert p in PROPS or p in NOT_APPLICABLE, p
+    assert (p in PROPS) or (p in NOT_APPLICABLE), p
 m = {
     "version": 1,
     "setup_cmd": "./setup",
